@@ -342,6 +342,9 @@ func runScanWalk(c *swCase, mode, nmName, tmp string, faultKind int) (obs swObs)
 		return []byte(strings.Repeat("x", concreteSize(size)))
 	}
 	var roots []*scalibrfs.ScanRoot
+	rootDirs := map[int]string{}
+	// every other scan of a real directory asks for absolute locations (root path + location, per root)
+	storeAbs := mode == "real" && faultKind%2 == 1
 	realBase := ""
 	for r := 1; r <= c.Cfg.Roots; r++ {
 		if mode == "real" {
@@ -375,6 +378,7 @@ func runScanWalk(c *swCase, mode, nmName, tmp string, faultKind int) (obs swObs)
 				}
 			}
 			sr := scalibrfs.RealFSScanRoot(rootDir)
+			rootDirs[r] = rootDir
 			s.rootOf[sr.FS] = r
 			roots = append(roots, sr)
 			if r == 1 {
@@ -479,6 +483,7 @@ func runScanWalk(c *swCase, mode, nmName, tmp string, faultKind int) (obs swObs)
 		ReadSymlinks:         c.Cfg.ReadLinks,
 		MaxInodes:            c.Cfg.MaxInodes,
 		ErrorOnFSErrors:      c.Cfg.Fatal,
+		StoreAbsolutePath:    storeAbs,
 		Stats:                &swStats{s: s},
 	}
 	for _, p := range c.Cfg.Paths {
@@ -547,6 +552,18 @@ func runScanWalk(c *swCase, mode, nmName, tmp string, faultKind int) (obs swObs)
 			}
 		} else {
 			key = p.Name + "|NIL-EXTRACTOR"
+		}
+		// the location: the path the extractor was given, below the root's path when absolute locations are asked for
+		if parts := strings.SplitN(p.Name, "|", 3); len(parts) == 3 && len(p.Locations) > 0 {
+			var r int
+			fmt.Sscanf(parts[0], "%d", &r)
+			want := mapPath(parts[2], nm)
+			if storeAbs {
+				want = filepath.Join(rootDirs[r], filepath.FromSlash(want))
+			}
+			if p.Locations[0] != want {
+				key += "|BAD-LOCATION:" + p.Locations[0] + " (want " + want + ")"
+			}
 		}
 		pk[key]++
 	}
